@@ -5,7 +5,7 @@
     against WireTrace with every invariant evaluated at every step.
  3. spec -> impl: every behaviour of WireGen (exhaustive for small constants, simulated for
     larger) replayed into a real trzszBuffer, results/cursor compared after each return."""
-import os, json
+import os, json, time
 import vlib
 
 ASSUMPTIONS = [
@@ -31,6 +31,14 @@ def run(tier, v):
                                             "random": 1500 if quick else 20000, "alpha6": not quick}, timeout=1200 if quick else 5400)
     files = vlib.split_traces([os.path.join(out, "trace-%02d.ndjson" % i) for i in range(s["shards"])])
     res = vlib.validate_traces("WireTrace", "WireTrace.cfg", files, timeout=3000)
+    if s.get("deep_backlog_reads"):
+        # a backlog of more reads than the buffer queues: validated against the same actions (every returned line must be
+        # the model's); the state invariants (quadratic in the queue length) are checked on the other recordings
+        deep = [os.path.join(out, "trace-%02d.ndjson" % s["shards"])]
+        t0 = time.time()
+        res += vlib.validate_traces("WireTrace", "WireTrace_deep.cfg", deep, timeout=1500)
+        files += deep
+        cov["deep_backlog"] = {"reads": s["deep_backlog_reads"], "accepted": res[-1]["accepted"], "wall_s": round(time.time() - t0, 1)}
     nrej = 0
     for f, r in zip(files, res):
         if r["violated"] not in (None, "postcondition"):
